@@ -15,9 +15,10 @@ import (
 // a bignum to a machine integer is exact only under the matching range test: Int64 under IsInt64, Uint64 under
 // IsUint64, on the same big.Int, holding on every path to the conversion. A guard of the other kind lets 2^63 ..
 // 2^64-1 through IsUint64 into Int64, which wraps to a negative number ((< 1/2 9223372036854775808) => nil).
-func c05int64(c *core.Ctx, r *core.Reporter) {
-	const rule = "C05.int64"
-	r.Rule(rule, "every (*big.Int).Int64 / Uint64 conversion whose receiver was range-tested is reached only through the success edge of the matching test (IsInt64 for Int64, IsUint64 for Uint64) of the same big.Int; a conversion under the other test wraps", 10)
+func c05int64(c *core.Ctx, r *core.Reporter) { bigInt64Rule(c, r, "C05.int64") }
+
+func bigInt64Rule(c *core.Ctx, r *core.Reporter, rule string) {
+	r.Rule(rule, "every (*big.Int).Int64 / Uint64 conversion whose receiver was range-tested is reached only through the success edge of the matching test (IsInt64 for Int64, IsUint64 for Uint64) of the same big.Int, or a BitLen bound that implies it (at most 63 bits for Int64, 64 for Uint64); a conversion under the other test, or under a wider BitLen bound, wraps", 10)
 	an := lenflow.New(c)
 	isBig := func(f *ssa.Function, name string) bool {
 		return f != nil && f.Name() == name && f.Pkg != nil && f.Pkg.Pkg.Path() == "math/big" && f.Signature.Recv() != nil
@@ -74,6 +75,67 @@ func c05int64(c *core.Ctx, r *core.Reporter) {
 					cond, br := f.If.Cond, f.Branch
 					if un, isNot := cond.(*ssa.UnOp); isNot && un.Op == token.NOT {
 						cond, br = un.X, !br
+					}
+					if bo, isBin := cond.(*ssa.BinOp); isBin {
+						// a bound on BitLen() of the same big.Int
+						bitsOf := func(v ssa.Value) bool {
+							bc, ok := v.(*ssa.Call)
+							if !ok {
+								return false
+							}
+							bcal := bc.Call.StaticCallee()
+							return isBig(bcal, "BitLen") && len(bc.Call.Args) == 1 && root(bc.Call.Args[0]) == recv
+						}
+						kOf := func(v ssa.Value) (int64, bool) {
+							k, ok := v.(*ssa.Const)
+							if !ok || k.Value == nil {
+								return 0, false
+							}
+							return k.Int64(), true
+						}
+						maxBits := int64(-1)
+						op := bo.Op
+						x, y := bo.X, bo.Y
+						if bitsOf(y) {
+							// k OP bits  ==  bits OP' k
+							x, y = y, x
+							switch op {
+							case token.LSS:
+								op = token.GTR
+							case token.LEQ:
+								op = token.GEQ
+							case token.GTR:
+								op = token.LSS
+							case token.GEQ:
+								op = token.LEQ
+							}
+						}
+						if bitsOf(x) {
+							if k, ok := kOf(y); ok {
+								switch {
+								case op == token.LEQ && br:
+									maxBits = k
+								case op == token.LSS && br:
+									maxBits = k - 1
+								case op == token.GTR && !br:
+									maxBits = k
+								case op == token.GEQ && !br:
+									maxBits = k - 1
+								}
+							}
+						}
+						if maxBits >= 0 {
+							limit := int64(63)
+							if want == "IsUint64" {
+								limit = 64
+							}
+							if maxBits <= limit {
+								matched = true
+							} else {
+								other = fmt.Sprintf("BitLen() <= %d", maxBits)
+							}
+						}
+						continue
 					}
 					tc, ok := cond.(*ssa.Call)
 					if !ok || !br {
